@@ -35,6 +35,12 @@ pub enum Edit {
     /// an edit inside the function a composite site calls: one sub-site is replaced (Duo) or the
     /// delay line resized (DlySrc); the site keeps its identity, its other sub-site is untouched
     Inner { pos: usize, id: u32 },
+    /// regrouping: two adjacent sites of dsp move into one function of their own (a composite
+    /// `Duo` with fresh ids); the flattened state layout stays what it was, only the nesting
+    /// changes. Both moved sites are touched, every other site is not
+    Merge { pos: usize, a_id: u32, b_id: u32, new_id: u32 },
+    /// the reverse: the two sub-sites of a composite become sites of dsp again
+    Split { pos: usize, old_id: u32, a_id: u32, b_id: u32 },
 }
 
 /// One version of the edited file.
@@ -148,6 +154,9 @@ pub struct GenCfg {
     pub kinds: Vec<Kind>,
     /// allow channels that sum several voices
     pub mix_channels: bool,
+    /// regrouping family: most edits move call sites into / out of functions of their own
+    /// (merge, split, wrap, unwrap) - the refactoring steps of a live coder tidying up
+    pub regroup: bool,
 }
 
 impl GenCfg {
@@ -166,6 +175,7 @@ impl GenCfg {
             max_delay: *rng.pick(&[4u32, 16, 64, 100, 100, 10000]),
             kinds,
             mix_channels: rng.chance(1, 3),
+            regroup: false,
         }
     }
 }
@@ -264,6 +274,11 @@ impl ProgGen {
         p.fault = None;
         p.cosmetic = rng.below(8) as u32;
         let n = p.sites.len();
+        if (self.cfg.regroup && rng.chance(3, 4)) || rng.chance(1, 25) {
+            if let Some(q) = self.regroup_edit(rng, &p) {
+                return q;
+            }
+        }
         // inner edits whenever the program has a composite site
         let composites: Vec<usize> = p
             .sites
@@ -390,6 +405,171 @@ impl ProgGen {
         }
         p.edit = Edit::Noop;
         p
+    }
+
+    /// One regrouping edit (merge two adjacent sites into a composite, split a composite, wrap or
+    /// unwrap a site), if the program allows one.
+    fn regroup_edit(&mut self, rng: &mut Rng, base: &Prog) -> Option<Prog> {
+        use crate::voices::{InputSrc, SUB_KINDS};
+        let mut p = base.clone();
+        let sub_ok = |v: &Voice| SUB_KINDS.contains(&v.kind) && v.wrap == 0 && !matches!(v.input, InputSrc::DspIn(_));
+        let merges: Vec<usize> = (0..p.sites.len().saturating_sub(1)).filter(|i| sub_ok(&p.sites[*i]) && sub_ok(&p.sites[*i + 1])).collect();
+        let splits: Vec<usize> = (0..p.sites.len()).filter(|i| p.sites[*i].kind == Kind::Duo && p.sites[*i].wrap == 0).collect();
+        let wraps: Vec<usize> = (0..p.sites.len())
+            .filter(|i| p.sites[*i].wrap < 4 && !matches!(p.sites[*i].kind, Kind::Duo | Kind::DlySrc | Kind::FeedDly | Kind::InMem | Kind::InDly | Kind::ArrSelf))
+            .collect();
+        let unwraps: Vec<usize> = (0..p.sites.len()).filter(|i| p.sites[*i].wrap > 0 && p.sites[*i].kind != Kind::ArrSelf).collect();
+        let mut ops = vec![];
+        if !merges.is_empty() {
+            ops.push(0);
+        }
+        if !splits.is_empty() {
+            ops.push(1);
+        }
+        if !wraps.is_empty() {
+            ops.push(2);
+        }
+        if !unwraps.is_empty() {
+            ops.push(3);
+        }
+        if ops.is_empty() {
+            return None;
+        }
+        match *rng.pick(&ops) {
+            0 => {
+                let pos = *rng.pick(&merges);
+                let (a, b) = (p.sites[pos].clone(), p.sites[pos + 1].clone());
+                let new_id = self.fresh_id();
+                let (mut sa, mut sb) = (a.clone(), b.clone());
+                sa.id = 500_000 + new_id * 8;
+                sb.id = 500_000 + new_id * 8 + 1;
+                let duo = Voice { id: new_id, kind: Kind::Duo, p: [0.0; 3], n: a.n, input: InputSrc::Now, wrap: 0, subs: vec![sa, sb], rand: None };
+                Self::reroute_replace(&mut p.chans, a.id, new_id);
+                Self::unroute(&mut p.chans, b.id);
+                p.sites[pos] = duo;
+                p.sites.remove(pos + 1);
+                p.edit = Edit::Merge { pos, a_id: a.id, b_id: b.id, new_id };
+            }
+            1 => {
+                let pos = *rng.pick(&splits);
+                let duo = p.sites[pos].clone();
+                let (mut a, mut b) = (duo.subs[0].clone(), duo.subs[1].clone());
+                a.id = self.fresh_id();
+                b.id = self.fresh_id();
+                a.wrap = 0;
+                b.wrap = 0;
+                Self::reroute_replace(&mut p.chans, duo.id, a.id);
+                self.route(rng, &mut p.chans, b.id);
+                let (a_id, b_id) = (a.id, b.id);
+                p.sites[pos] = a;
+                p.sites.insert(pos + 1, b);
+                p.edit = Edit::Split { pos, old_id: duo.id, a_id, b_id };
+            }
+            2 => {
+                let pos = *rng.pick(&wraps);
+                let old_id = p.sites[pos].id;
+                let new_id = self.fresh_id();
+                p.sites[pos].wrap += 1;
+                p.sites[pos].id = new_id;
+                Self::reroute_replace(&mut p.chans, old_id, new_id);
+                p.edit = Edit::Wrap { pos, old_id, new_id };
+            }
+            _ => {
+                let pos = *rng.pick(&unwraps);
+                let old_id = p.sites[pos].id;
+                let new_id = self.fresh_id();
+                p.sites[pos].wrap -= 1;
+                p.sites[pos].id = new_id;
+                Self::reroute_replace(&mut p.chans, old_id, new_id);
+                p.edit = Edit::Unwrap { pos, old_id, new_id };
+            }
+        }
+        Some(p)
+    }
+
+    /// "Layout revisit" history: two sites are re-nested (merged into a composite, or one of them
+    /// wrapped), the re-nested sites are deleted, fresh sites of the same kinds are inserted one
+    /// save at a time (each starts from zero, so its state is known again), and then ANOTHER
+    /// re-nesting is applied to that same flat layout. Anything that remembers what it did for a
+    /// layout (a memo, a cache, a reused plan) meets the layout again under another nesting.
+    /// `v0` must start with two sites that can live in a composite. Returns the versions after v0.
+    pub fn revisit_script(&mut self, rng: &mut Rng, v0: &Prog) -> Vec<Prog> {
+        use crate::voices::InputSrc;
+        let mut out = vec![];
+        let nest = |this: &mut Self, rng: &mut Rng, base: &Prog, which: u64| -> Prog {
+            let mut p = base.clone();
+            p.fault = None;
+            p.cosmetic = rng.below(8) as u32;
+            match which {
+                0 => {
+                    let (a, b) = (p.sites[0].clone(), p.sites[1].clone());
+                    let new_id = this.fresh_id();
+                    let (mut sa, mut sb) = (a.clone(), b.clone());
+                    sa.id = 500_000 + new_id * 8;
+                    sb.id = 500_000 + new_id * 8 + 1;
+                    let duo = Voice { id: new_id, kind: Kind::Duo, p: [0.0; 3], n: a.n, input: InputSrc::Now, wrap: 0, subs: vec![sa, sb], rand: None };
+                    Self::reroute_replace(&mut p.chans, a.id, new_id);
+                    Self::unroute(&mut p.chans, b.id);
+                    p.sites[0] = duo;
+                    p.sites.remove(1);
+                    p.edit = Edit::Merge { pos: 0, a_id: a.id, b_id: b.id, new_id };
+                }
+                w => {
+                    let pos = (w - 1) as usize;
+                    let old_id = p.sites[pos].id;
+                    let new_id = this.fresh_id();
+                    p.sites[pos].wrap += 1;
+                    p.sites[pos].id = new_id;
+                    Self::reroute_replace(&mut p.chans, old_id, new_id);
+                    p.edit = Edit::Wrap { pos, old_id, new_id };
+                }
+            }
+            p
+        };
+        let first = rng.below(3);
+        let mut second = rng.below(3);
+        if second == first {
+            second = (first + 1) % 3;
+        }
+        let (ka, kb) = (v0.sites[0].clone(), v0.sites[1].clone());
+        let mut cur = v0.clone();
+        for (round, which) in [first, second].into_iter().enumerate() {
+            cur = nest(self, rng, &cur, which);
+            out.push(cur.clone());
+            if round == 1 {
+                break;
+            }
+            // delete what was re-nested: the composite, or the wrapped site and its neighbour
+            let n_del = if which == 0 { 1 } else { 2 };
+            for _ in 0..n_del {
+                let mut p = cur.clone();
+                let id = p.sites[0].id;
+                p.sites.remove(0);
+                Self::unroute(&mut p.chans, id);
+                p.cosmetic = rng.below(8) as u32;
+                p.edit = Edit::Delete { pos: 0, id };
+                cur = p;
+                out.push(cur.clone());
+            }
+            // fresh sites of the same kinds, one save each
+            for (k, tmpl) in [ka.clone(), kb.clone()].into_iter().enumerate() {
+                let mut p = cur.clone();
+                let mut v = tmpl;
+                v.id = self.fresh_id();
+                v.wrap = 0;
+                let id = v.id;
+                // a channel of its own if there is one
+                if let Some(c) = p.chans.iter_mut().find(|c| c.is_empty()) {
+                    c.push(id);
+                }
+                p.sites.insert(k, v);
+                p.cosmetic = rng.below(8) as u32;
+                p.edit = Edit::Insert { pos: k, id };
+                cur = p;
+                out.push(cur.clone());
+            }
+        }
+        out
     }
 
     /// Two or three single edits (no reorder, no inner edit) applied before one save.
